@@ -488,7 +488,9 @@ def run(rep, ctx):
                 for cid, pol in g.cfg.facts_at(u):
                     add(g.nodes[cid], pol)
                 nonnull = any(strip(c).get("declId") == p_["declId"] and pol is True for c, pol in fa if strip(c)["k"] == "DeclRefExpr") or \
-                    any(c["k"] == "BinaryOperator" and c.get("op") == "!=" and strip(kids(c)[0]).get("declId") == p_["declId"] and cv(kids(c)[1]) == 0 and pol for c, pol in fa)
+                    any(c["k"] == "BinaryOperator" and c.get("op") in ("!=", "==") and ((c.get("op") == "!=") == bool(pol)) and
+                        ((strip(kids(c)[0]).get("declId") == p_["declId"] and (cv(kids(c)[1]) == 0 or "nullptr" in render(kids(c)[1]))) or
+                         (strip(kids(c)[1]).get("declId") == p_["declId"] and (cv(kids(c)[0]) == 0 or "nullptr" in render(kids(c)[0])))) for c, pol in fa)
                 if not nonnull:
                     bad = u
             n1.check(bad is None, "%s|%s" % (g.qn.split("::")[-1] if g.qn.endswith("PrintSolution") else g.qn.split("::")[-2] + "::HandleSolution", p_["name"]), short_loc(g.loc),
